@@ -400,7 +400,9 @@ func incident(s seg, t seg) bool { // do the two edges share a vertex of the sam
 
 // generalPosition: every vertex is at least genMargin from every non-incident edge (of A and of B), every crossing
 // point of two edges is at least genMargin from every third edge, and contours have no zero-length edge.
-func generalPosition(a, b fpoly) ([]fpt, bool) {
+func generalPosition(a, b fpoly) ([]fpt, bool) { return generalPositionM(a, b, genMargin) }
+
+func generalPositionM(a, b fpoly, genMargin float64) ([]fpt, bool) {
 	segs := segments(a, b)
 	for _, s := range segs {
 		if s.a == s.b {
@@ -473,6 +475,10 @@ func fmtFPoly(p fpoly) string {
 }
 
 func samplePoints(r *hx.Rng, a, b fpoly, crossings []fpt, k int) []fpt {
+	return samplePointsIn(r, a, b, crossings, k, span, sampM)
+}
+
+func samplePointsIn(r *hx.Rng, a, b fpoly, crossings []fpt, k int, span, sampM float64) []fpt {
 	segs := segments(a, b)
 	pts := make([]fpt, 0, k)
 	snap := func(v float64) float64 { return math.Round(v*grid) / grid }
@@ -480,7 +486,7 @@ func samplePoints(r *hx.Rng, a, b fpoly, crossings []fpt, k int) []fpt {
 		var p fpt
 		switch c := r.Intn(10); {
 		case c < 4 || len(segs) == 0: // uniform over the square plus a border
-			p = fpt{-1 + (span+2)*rnd(r), -1 + (span+2)*rnd(r)}
+			p = fpt{-span/16 + (span+span/8)*rnd(r), -span/16 + (span+span/8)*rnd(r)}
 		case c < 8: // just off an edge of A or B, on either side
 			s := segs[r.Intn(len(segs))]
 			t := rnd(r)
